@@ -9,6 +9,9 @@
 \*            expose, numerators over dP/dPi/dE; near = all were on the grid),
 \*            L = round(exp(logL) * scale), T[t][s] = round(posterior_t(s) * L),
 \*            SL[t] = round(siteLik_t * L * dE)  (*near = within 1e-6 relative)
+\*            k = sum of the per-site binary exponents x of the Reset record (emissions are
+\*            (numerator/8) * 2^-x[t]; E, L, SL are mantissas), fin = logL finite, agree = the other two
+\*            algorithms (fresh objects) return the same log-likelihood to 1e-9 relative
 \*            D.a / D.b = first and second derivative w.r.t. a / b (see DerivOk)
 \* Each Exact event is one complete run of the design model on the event's
 \* model: the transcription runs to completion, the design invariants
@@ -24,7 +27,7 @@ Zeros == [t \in 1..cfg.len |-> [j \in 1..cfg.n |-> 0]]
 ModelOf(ev) == [n |-> cfg.n, len |-> cfg.len, P |-> ev.P, dP |-> ev.dP, Pi |-> ev.Pi, dPi |-> ev.dPi,
                 E |-> ev.E, dE |-> ev.dE, bps |-> ev.bps,
                 chunk |-> IF ev.chunk = 0 THEN cfg.len + 1 ELSE ev.chunk,
-                dEm |-> cfg.ca, d2Em |-> Zeros]
+                dEm |-> cfg.ca, d2Em |-> Zeros, ex |-> cfg.x]
 WrtB(mm) == [mm EXCEPT !.dEm = cfg.cb]
 
 \* derivatives of -log L as the classes return them: d1 = -L'/L, d2 = -(L''/L - (L'/L)^2); the driver logs
@@ -50,7 +53,9 @@ FromParameters(ev, mm) ==
 Observed(ev, mm, s, b) ==
   LET TD == [t \in Sites(mm) |-> [j \in States(mm) |-> ThroughDef(mm, t, j)]] IN
   /\ ev.mem /\ ev.valueAgrees
-  /\ ev.Lr = "ok" /\ ev.Lnear /\ ev.L = LikDef(mm)
+  \* log-likelihood = log(L / scale) - k log 2: finite, mantissa = path sum, exponent = sum of the site exponents
+  /\ ev.Lr = "ok" /\ ev.fin /\ ev.Lnear /\ ev.L = LikDef(mm) /\ ev.k = LikExp(mm)
+  /\ ev.agree                                                          \* the three algorithms agree to 1e-9
   /\ ev.cls \in {"rescaled", "logsum"} => ev.Pr = "ok"
   /\ ev.cls \in {"rescaled", "logsum"} => DerivOk(ev.D.a, mm) /\ DerivOk(ev.D.b, WrtB(mm))
   /\ \A t \in Sites(mm), j \in States(mm) : ThroughAlg(mm, s, b, t, j) = TD[t][j]   \* PosteriorIsDefinition
@@ -78,7 +83,8 @@ TExact == /\ IsEvent("Exact")
           /\ UNCHANGED cfg
 
 Trivial == [n |-> 1, len |-> 1, P |-> << <<1>> >>, dP |-> 1, Pi |-> <<1>>, dPi |-> 1,
-            E |-> << <<1>> >>, dE |-> 1, bps |-> <<>>, chunk |-> 1, dEm |-> << <<0>> >>, d2Em |-> << <<0>> >>]
+            E |-> << <<1>> >>, dE |-> 1, bps |-> <<>>, chunk |-> 1, dEm |-> << <<0>> >>, d2Em |-> << <<0>> >>,
+            ex |-> <<0>>]
 
 TraceInit == /\ m = Trivial /\ pc = "done"
              /\ st = RunFwd(Trivial, FwdInit(Trivial)) /\ bt = RunBwd(Trivial, BwdInit(Trivial))
